@@ -158,3 +158,37 @@ let ack_oracle (ops : string list) (impl : res list list list) : bool option =
             if String.length s >= 4 && String.sub s 0 4 = "ERR:" then in_domain := false) results) calls) ops impl
   with Invalid_argument _ -> in_domain := false);
   if !in_domain then Some !ok else None
+
+(* ---------------------------------------------------------------- C18: messages on the expected streams / timestamps
+   A conformant peer decoding the returned packets IN THE ORDER RETURNED must see, for every call that takes the
+   session clock, messages stamped with that clock reading (SetChunkSize announcements are stamped 0, media calls
+   carry the caller's timestamp) and, for media calls, the caller's stream id. *)
+let stamp_oracle (ops : string list) (impl : res list list list) (media_sid_field : int option) : bool option =
+  let peer = new_peer () in
+  let ok = ref true and in_domain = ref true in
+  (try List.iter2 (fun op calls ->
+    let t = List.filter (fun s -> s <> "") (String.split_on_char ' ' op) in
+    let clock = (match t with
+        | ("in" | "accept" | "reject" | "meta" | "ping" | "finish" | "connect" | "play" | "publish" | "stopplay" | "stoppub") :: c :: _ -> Some (int_of_string c land 0xFFFFFFFF)
+        | "cfg" :: _ -> (match List.rev t with c :: _ when List.length t = 7 -> Some (int_of_string c land 0xFFFFFFFF) | _ -> None)
+        | _ -> None) in
+    List.iter (fun results ->
+      List.iter (function
+        | Other s -> if String.length s >= 4 && String.sub s 0 4 = "ERR:" then in_domain := false
+        | Pkt (_, b) ->
+          (match peer_feed peer b with
+           | Some [m] ->
+             let ts = int_of_n m.Chunk.m_ts and tid = int_of_n m.Chunk.m_tid in
+             (match t with
+              | ("video" | "audio") :: rest ->
+                (match media_sid_field, rest with
+                 | Some _, sid :: mts :: _ -> if ts <> int_of_string mts || int_of_n m.Chunk.m_sid <> int_of_string sid then ok := false
+                 | None, mts :: _ -> if ts <> int_of_string mts then ok := false
+                 | _ -> ())
+              | _ ->
+                (match clock with
+                 | Some c -> if tid = 1 then (if ts <> 0 then ok := false) else if ts <> c then ok := false
+                 | None -> ()))
+           | _ -> in_domain := false)) results) calls) ops impl
+  with Invalid_argument _ -> in_domain := false);
+  if !in_domain then Some !ok else None
